@@ -292,7 +292,7 @@ PROPS["C11"] = dict(
     rule=("histories: actions create / create-sharing (a new root given the type objects of an existing one) / op / touch-other; specs incl. roots inheriting (allOf) from types that refer to further types; non-trivial = some (spec, op) repeated and ops on different specs interleaved; map orders: generated specs plus a family biased to the range sites "
           "(several types, or alternatives, missing required keys, overlapping key shortcuts, allOf from two parents) and a literal-kind family (additionalProperties of each kind x literals in every spelling); non-trivial = a rewritten site iterated a map with >=2 entries (counted by the hook); "
           "distinct by the step list / spec"),
-    assumptions=["error messages are not compared (required-key messages list keys in map order by design), only verdict, code, position and file"],
+    assumptions=["pointer-derived names of anonymous types do not appear in the compared results of accepted inputs (they do in the message of error 1302 for a missing anonymous type, which no accepted input produces)"],
     jobs=[job("histories", "^TestHistories$", (4, 16), (2000, 30000), (900, 3000)),
           job("map-orders", "^TestMapOrders$", (4, 16), (800, 30000), (900, 3000), pkg="c11m")],
 )
@@ -308,6 +308,29 @@ PROPS["C12"] = dict(
     assumptions=["a failed plan is replayed 20 times by --replay; a race report is conclusive by itself"],
     jobs=[job("plans", "^TestConcurrentSharing$", (4, 16), (150, 3000), (1200, 3000), race=True, race_attributed=True)],
 )
+
+
+# Round 5 (DESIGN §10.7): what the generators gained after the per-property defect hunts
+_R5 = {
+    "C01": "; Document objects that were read / measured / checked / validated before the judged Validate; empty containers written with a blank inside, a property on the line of the preceding array's closing bracket",
+    "C02": "; date-times with a digit missing, comma fractions, out-of-range offsets, leap seconds; addresses with display names, comments, groups and control blanks",
+    "C03": "; key types with format / const / nullable rules, an escaped quote at the edge of the example, no rule at all; object rule sets with additionalProperties inside or; second check: allOf lists of 2-3 parents in 4 orders x additionalProperties none/true/false/any/integer/string on parents and child x 8 documents",
+    "C04": "; empty containers ([] {} [ ] { }) under an or of 2-3 alternatives from a 26-item pool (kind names, rule sets with and without type, item counts, rules for literals)",
+    "C06": "; reads interleaved with 1-5 Len / Check calls on one Document; empty # comments",
+    "C07": "; regex classes without printable ASCII and zero-width assertions, blank documents, type shortcuts next to an or of kind names, layered graphs of or types (8-36 layers, 60 s budget); the error value itself (not a wrapped one) must be the library error and its Message() non-empty",
+    "C08": "; or rule sets with an empty exclusive interval, a rule foreign to the declared kind, bounds of 2^64; minLength / minItems / precision of 2^64; second check: AddType after the first use (check, ast, example, validate, len) is refused or takes effect",
+    "C09": "; types created with KeysAreOptionalByDefault, or members written as rule sets with a second rule, key-type aliases naming a missing type",
+    "C11": "; error messages compared; regex example bytes; one Document object validated repeatedly; schemas with regex types; types wired to each other and types known only through other types",
+    "C12": "; specs with regex types and with types wired to each other; private schemas add the type objects of the shared one; operations on the shared type objects themselves (Check of a type, Example of a regex type)",
+    "C13": "; 22 rewrite kinds now (empty # comments, blank in empty containers, property after array, blank or tab between a bare rule name and its colon, ### block ### inside inline rule objects, notes on lines of their own); document re-spelling also over type graphs",
+    "C14": "; negatives: blank-only JSON texts, type shortcuts cut off at the end of input; foreign text of several lines containing / and #; empty comments after an enum",
+    "C15": "; key types as in C03; the bytes returned by Example() are overwritten (spare capacity included) before the schema is used again",
+    "C16": "; notes on lines where no value starts (nobody's), one-name allOf lists, additionalProperties written as \"false\" / \"true\" / null, blank in empty containers, property after array",
+    "C17": "; indentation of 150-260 blanks (trim first, then truncate); additionalProperties: false written out under the unknown-key class",
+    "C18": "; empty comments and comments before the opening bracket; duplicates by value (1.5 / 1.50, 0 / -0); curated patterns with assertions and non-ASCII classes",
+}
+for _k, _v in _R5.items():
+    PROPS[_k]["rule"] += _v
 
 _UNBUILT = "check under construction in this session (see DESIGN.md section 5 for the planned design)"
 NOT_APPLICABLE = [dict(property_id="C%02d" % i, reason=_UNBUILT) for i in range(1, 20) if "C%02d" % i not in PROPS]
